@@ -100,11 +100,11 @@ Qed.
 
 (* ---------- AxCut after shrinking ---------- *)
 Theorem pipeline_shrunk_size : forall p c q s,
-  compile_prog p = Fun2Core.Ok c -> calls_main_prog p = false -> focus_prog c = Ok q -> shrink_prog q = SOk s ->
+  compile_prog p = Fun2Core.Ok c -> focus_prog c = Ok q -> shrink_prog q = SOk s ->
   ax_size_prog s <= pipeline_shrunk_bound p.
 Proof.
-  intros p c q s H1 Hncm H2 H3.
-  pose proof (fun2core_size_weighted p c H1 Hncm) as B1.
+  intros p c q s H1 H2 H3.
+  pose proof (fun2core_size_weighted p c H1) as B1.
   pose proof (focus_prog_size_lemma c q H2) as B2.
   pose proof (shrink_size_lemma q s H3) as B3.
   destruct (focus_decls p c q H1 H2) as [D1 D2].
@@ -118,11 +118,11 @@ Qed.
 
 (* ---------- AxCut after linearization ---------- *)
 Theorem pipeline_ax_size : forall p c q s,
-  compile_prog p = Fun2Core.Ok c -> calls_main_prog p = false -> focus_prog c = Ok q -> shrink_prog q = SOk s ->
+  compile_prog p = Fun2Core.Ok c -> focus_prog c = Ok q -> shrink_prog q = SOk s ->
   ax_size_prog (linearize s) <= pipeline_ax_bound p.
 Proof.
-  intros p c q s H1 Hncm H2 H3.
-  pose proof (fun2core_size_weighted p c H1 Hncm) as B1.
+  intros p c q s H1 H2 H3.
+  pose proof (fun2core_size_weighted p c H1) as B1.
   pose proof (focus_prog_size_lemma c q H2) as B2.
   pose proof (shrink_size_lemma q s H3) as B3.
   pose proof (linearize_size_poly_lemma s) as B4.
@@ -142,24 +142,24 @@ Qed.
 Definition pipeline_x86_bound (p : fcprog) : N := 30 + x86_K * pipeline_cg_bound p.
 
 Lemma pipeline_cg : forall p c q s,
-  compile_prog p = Fun2Core.Ok c -> calls_main_prog p = false -> focus_prog c = Ok q -> shrink_prog q = SOk s ->
+  compile_prog p = Fun2Core.Ok c -> focus_prog c = Ok q -> shrink_prog q = SOk s ->
   cg_bound_defs (pdefs (linearize s)) <= pipeline_cg_bound p.
 Proof.
-  intros p c q s H1 Hncm H2 H3.
-  pose proof (pipeline_ax_size p c q s H1 Hncm H2 H3) as B.
-  pose proof (pipeline_shrunk_size p c q s H1 Hncm H2 H3) as BS.
+  intros p c q s H1 H2 H3.
+  pose proof (pipeline_ax_size p c q s H1 H2 H3) as B.
+  pose proof (pipeline_shrunk_size p c q s H1 H2 H3) as BS.
   pose proof (cg_bound_linearize s) as G.
   unfold pipeline_cg_bound. eapply N.le_trans; [exact G|]. apply N.mul_le_mono; [exact B|lia].
 Qed.
 
 Theorem pipeline_x86_size : forall p c q s lc r n lc',
-  compile_prog p = Fun2Core.Ok c -> calls_main_prog p = false -> focus_prog c = Ok q -> shrink_prog q = SOk s ->
+  compile_prog p = Fun2Core.Ok c -> focus_prog c = Ok q -> shrink_prog q = SOk s ->
   sub_wf_prog (linearize s) = true ->
   x86_compile (linearize s) lc = Ok (r, n, lc') ->
   len r <= pipeline_x86_bound p.
 Proof.
-  intros p c q s lc r n lc' H1 Hncm H2 H3 HW H5.
-  pose proof (pipeline_cg p c q s H1 Hncm H2 H3) as G.
+  intros p c q s lc r n lc' H1 H2 H3 HW H5.
+  pose proof (pipeline_cg p c q s H1 H2 H3) as G.
   pose proof (x86_compile_size _ _ _ _ _ HW H5) as C. unfold x86_bound, x86_routine_overhead in C.
   unfold pipeline_x86_bound.
   assert (x86_K * cg_bound_defs (pdefs (linearize s)) <= x86_K * pipeline_cg_bound p) by (apply N.mul_le_mono_l; exact G).
@@ -196,22 +196,22 @@ Qed.
 
 (* ---------- the guard through the linearizer ---------- *)
 Theorem pipeline_x86_size_ok : forall p c q s lc r n lc',
-  compile_prog p = Fun2Core.Ok c -> calls_main_prog p = false -> focus_prog c = Ok q -> shrink_prog q = SOk s ->
+  compile_prog p = Fun2Core.Ok c -> focus_prog c = Ok q -> shrink_prog q = SOk s ->
   lin_check_prog (linearize s) = true ->
   x86_compile (linearize s) lc = Ok (r, n, lc') ->
   len r <= pipeline_x86_bound p.
 Proof.
-  intros p c q s lc r n lc' H1 Hncm H2 H3 HL H5. eapply pipeline_x86_size; eauto. apply lin_check_prog_sub_wf. exact HL.
+  intros p c q s lc r n lc' H1 H2 H3 HL H5. eapply pipeline_x86_size; eauto. apply lin_check_prog_sub_wf. exact HL.
 Qed.
 
 (* the guard discharged by C05 when the shrunk program is well typed with unique binders (prog_ok) *)
 Theorem pipeline_x86_size_prog_ok : forall p c q s lc r n lc',
-  compile_prog p = Fun2Core.Ok c -> calls_main_prog p = false -> focus_prog c = Ok q -> shrink_prog q = SOk s ->
+  compile_prog p = Fun2Core.Ok c -> focus_prog c = Ok q -> shrink_prog q = SOk s ->
   prog_ok s = true ->
   x86_compile (linearize s) lc = Ok (r, n, lc') ->
   len r <= pipeline_x86_bound p.
 Proof.
-  intros p c q s lc r n lc' H1 Hncm H2 H3 HP H5. eapply pipeline_x86_size_ok; eauto. apply linearize_exact. exact HP.
+  intros p c q s lc r n lc' H1 H2 H3 HP H5. eapply pipeline_x86_size_ok; eauto. apply linearize_exact. exact HP.
 Qed.
 
 (* ---------- the whole pipeline as one computation (for the vm_compute example of Props/C19.v) ----------
